@@ -23,6 +23,4 @@ func PkgOfDir(dir string) string {
 	return run.Module + "/" + dir
 }
 
-func Main(args []string) int         { return 2 }
-func ReplayMain(args []string) int   { return 2 }
 func SelftestMain(args []string) int { return 2 }
